@@ -480,6 +480,10 @@ def get_env():
     env.PotentialEnergy, env.GradientRMS, env.Distance = PotentialEnergy, GradientRMS, Distance
     env.Calculation, env.OptKeywords = Calculation, OptKeywords
     env.FileMock = FileMock
+    from autode.opt.coordinates.primitives import PrimitiveDistance
+    from autode.wrappers.keywords.keywords import OptTSKeywords, MaxOptCycles
+    env.PrimitiveDistance, env.CartesianCoordinates = PrimitiveDistance, CartesianCoordinates
+    env.OptTSKeywords, env.MaxOptCycles = OptTSKeywords, MaxOptCycles
     env.classes = {"sd_cart": CartesianSDOptimiser, "sd_dic": DIC_SD_Optimiser, "rfo": RFOptimiser,
                    "crfo": CRFOptimiser, "prfo": PRFOptimiser}
     env.base_file = os.path.join(REPO, "autode", "opt", "optimisers", "base.py")
@@ -901,7 +905,59 @@ def gen_cases(ctx, full):
     cases.append({"name": f"c10r{idx + 1}", "surface": "single-atom", "pot": {"kind": "lj", "eps": 0.01, "sig": 1.5},
                   "atoms": [["Ar", 0.1, 0.2, 0.3]], "opt": "crfo", "kwargs": {}, "tol": "normal", "maxiter": 5,
                   "constraints": []})
-    return cases
+    return cases + fixed_cases(full)
+
+
+H3_POT = {"kind": "bondnet", "terms": [["h", 0, 1, 0.5, 1.0], ["h", 0, 2, 0.6, 1.1], ["h", 1, 2, 0.3, 1.6]]}
+H3_START = [["O", 0.02, 0.32, 0.0], ["H", -0.93, -0.22, 0.04], ["H", 0.88, -0.13, 0.02]]
+H3_FAR = [["O", 0.05, 0.40, 0.0], ["H", -1.10, -0.30, 0.10], ["H", 1.00, -0.05, -0.05]]
+DW3_POT = {"kind": "dw3", "p": [2.0, 0.3, 1.0, 2.2, 0.5, 1.9]}
+DW3_TS = [["H", -1.0, 0.01, 0.0], ["O", 0.1, 0.45, 0.0], ["H", 1.04, 0.02, 0.01]]
+DW3_MIN = [["H", -1.25, 0.0, 0.0], ["O", 0.0, 0.0, 0.0], ["H", 0.458, 0.8323, 0.0]]
+DW2_POT = {"kind": "dw2", "p": [1.0, 1.5, 0.4]}
+
+
+def fixed_cases(full):
+    """Seed-independent cases: a floor of well-behaved converging runs per optimiser (so that an edit which makes a
+    whole class of runs raise cannot pass silently), the wrappers/settings of the optimiser API, and the inputs on
+    which the unchanged code is known to miss a clause of the property."""
+    out = []
+
+    def add(name, surface, pot, atoms, opt, kwargs=None, tol="normal", maxiter=200, constraints=None, **extra):
+        out.append(dict({"name": "c10f" + name, "surface": surface, "pot": pot, "atoms": atoms, "opt": opt,
+                         "kwargs": kwargs or {}, "tol": tol, "maxiter": maxiter, "constraints": constraints or []}, **extra))
+    # --- floor
+    for oname, kw in (("sd_cart", {"step_size": 0.4}), ("sd_dic", {"step_size": 0.4}), ("rfo", {}), ("crfo", {})):
+        add("floor_" + oname, "harm3-fixed", H3_POT, H3_START, oname, kw, floor=True)
+    add("floor_c1", "harm3-fixed", H3_POT, H3_START, "crfo", constraints=[[0, 1, 1.2]], floor=True)
+    add("floor_c2", "harm3-fixed", H3_POT, H3_START, "crfo", constraints=[[0, 1, 1.2], [1, 2, 1.7]], floor=True)
+    add("floor_ts3", "dw3-fixed", DW3_POT, DW3_TS, "prfo", {"init_alpha": 0.05}, floor=True)
+    add("floor_ts2", "dw2-fixed", DW2_POT, [["H", 0.0, 0.0, 0.0], ["H", 1.52, 0.0, 0.0]], "prfo", {"init_alpha": 0.05}, floor=True)
+    # --- API wrappers and settings
+    add("opt_rfo", "harm3-fixed", H3_POT, H3_FAR, "rfo", tol="tight", maxiter=5, via="optimise")
+    add("opt_sd", "harm3-fixed", H3_POT, H3_FAR, "sd_cart", {"step_size": 0.3}, tol="normal", maxiter=3, via="optimise")
+    add("opt_crfo", "harm3-fixed", H3_POT, H3_START, "crfo", tol="normal", maxiter=100, via="optimise", constraints=[[0, 1, 1.2]])
+    add("set_sd", "harm3-fixed", H3_POT, H3_START, "sd_cart", {"step_size": 0.4}, tol="verytight", maxiter=300, via="setter")
+    add("set_rfo", "harm3-fixed", H3_POT, H3_START, "rfo", tol="tight", via="setter")
+    add("coords_sd", "harm3-fixed", H3_POT, H3_START, "sd_cart", {"step_size": 0.4}, maxiter=20, coords_arg=True)
+    add("xprims", "harm3-fixed", H3_POT, H3_START, "crfo", constraints=[[0, 1, 1.2]], extra_prims=[[1, 2]])
+    # --- two consecutive optimisations whose criteria differ by less than their printed precision (looser first)
+    add("twin_a", "harm3-fixed", H3_POT, H3_FAR, "sd_cart", {"step_size": 0.3}, tol={"rms_g": 1.4e-4}, maxiter=400)
+    add("twin_b", "harm3-fixed", H3_POT, H3_FAR, "sd_cart", {"step_size": 0.3}, tol={"rms_g": 0.6e-4}, maxiter=400)
+    # --- species.constraints.distance with the optimisers that are not CRFO
+    add("cons_prfo", "dw3-fixed", DW3_POT, DW3_TS, "prfo", {"init_alpha": 0.05}, maxiter=80, constraints=[[0, 1, 1.3]])
+    for oname, kw in (("rfo", {}), ("sd_cart", {"step_size": 0.4}), ("sd_dic", {"step_size": 0.4})):
+        add("cons_" + oname, "harm3-fixed", H3_POT, H3_START, oname, kw, constraints=[[0, 1, 1.3]])
+    # --- a saddle search started at a minimum with a gradient-only tolerance
+    add("tsmin2", "dw2-at-minimum", DW2_POT, [["H", 0.0, 0.0, 0.0], ["H", 1.9003, 0.0, 0.0]], "prfo", {"init_alpha": 0.05},
+        tol={"rms_g": 1e-3}, maxiter=40)
+    if full:
+        add("tsmin3", "dw3-at-minimum", DW3_POT, DW3_MIN, "prfo", {"init_alpha": 0.05}, tol={"rms_g": 1e-3}, maxiter=40)
+    return out
+
+
+FLOORS = {"sd_cart:converged": 3, "sd_dic:converged": 2, "rfo:converged": 3, "crfo:converged": 5,
+          "crfo:converged-constrained": 2, "prfo:converged-with-1-negative-eigenvalues": 2}
 
 
 CONV_FRAMES = ("conv_params", "__post_init__", "converged", "meets_criteria", "are_satisfied", "__mul__",
@@ -927,11 +983,25 @@ def run_case(env, case):
         if passes[0] > case["maxiter"] + 3:
             raise _Runaway()
     cls = env.classes[case["opt"]]
-    opt = cls(maxiter=case["maxiter"], conv_tol=tol, callback=guard, **case["kwargs"])
+    kwargs = dict(case["kwargs"])
+    if case.get("extra_prims"):              # CRFO: additional primitives in the DIC space (crfo.py:252-271)
+        kwargs["extra_prims"] = [env.PrimitiveDistance(int(i), int(j)) for i, j in case["extra_prims"]]
+    if case.get("coords_arg"):               # the documented `coords=` constructor argument (base.py:51-90)
+        kwargs["coords"] = env.CartesianCoordinates(np.array(mol.coordinates, dtype=float))
+    tol_arg = case["tol"] if isinstance(case["tol"], str) else tol      # presets go in as strings (base.py:698-699)
+    via = case.get("via", "run")
+    opt = None
+    if via != "optimise":
+        opt = cls(maxiter=case["maxiter"], conv_tol=("loose" if via == "setter" else tol_arg), callback=guard, **kwargs)
+        if via == "setter":
+            opt.conv_tol = tol_arg           # conv_tol setter, string branch for presets (base.py:714-730)
     res = {"exc": None, "runaway": False, "opt": opt, "mol": mol, "M": M, "tol": tol, "pot": pot, "passes": passes}
     x0 = np.array(mol.coordinates, dtype=float).copy()
     try:
-        opt.run(mol, M)
+        if via == "optimise":                # the convenience classmethod NDOptimiser.optimise (base.py:737-780)
+            cls.optimise(mol, M, maxiter=case["maxiter"], conv_tol=tol_arg, callback=guard, **kwargs)
+        else:
+            opt.run(mol, M)
     except _Runaway:
         res["runaway"] = True
     except Exception as e:  # noqa
@@ -939,6 +1009,11 @@ def run_case(env, case):
         res["exc"] = (type(e).__name__, str(e)[:200], [f for f in frames if f in CONV_FRAMES])
     res["x0"] = x0
     res["trj"] = f"{case['name']}_opt_trj.zip"
+    if via == "optimise" and res["exc"] is None and not res["runaway"]:
+        try:                                 # the optimiser object is not returned: its state is read back from the trajectory
+            res["opt"] = cls.from_file(res["trj"])
+        except Exception as e:  # noqa
+            res["exc"] = (type(e).__name__, f"optimise() left no loadable trajectory: {e}"[:200], ["from_file"])
     return res
 
 
@@ -985,7 +1060,7 @@ def projected_measures(g, V):
     A = np.vstack([np.hstack([-V, -np.ones((len(g), 1))]), np.hstack([V, -np.ones((len(g), 1))])])
     b = np.concatenate([-g, g])
     lp = linprog(cvec, A_ub=A, b_ub=b, bounds=[(None, None)] * m + [(0, None)], method="highs")
-    mx = float(lp.fun) if lp.status == 0 else float(np.max(np.abs(r)))
+    mx = float(lp.fun) if lp.status == 0 else None      # None: the max-norm minimum is not available
     return rms, mx
 
 
@@ -998,6 +1073,12 @@ def check_run(ctx, env, case, res, fail, terms, descr, factor_lists, coq_budget)
     if res["exc"] is not None:
         name, msg, frames = res["exc"]
         ctx.hist("runs", f"raised:{name}")
+        ctx.hist("runs", f"{cls}:raised")
+        if case.get("coords_arg") and name == "AssertionError" and "conv_params" in frames:
+            # Optimiser.__init__ appends the user's coordinates (no energy) before _initialise_run appends the start
+            # point: conv_params asserts on the missing energy.  No convergence is reported: outside C10 (see README).
+            ctx.hist("runs", "coords-arg:AssertionError-from-conv_params")
+            return
         if frames:
             fail(f"run|convergence-bookkeeping-raises:{name}",
                  f"{label}: {name} raised from {frames}: {msg}", rep)
@@ -1005,6 +1086,7 @@ def check_run(ctx, env, case, res, fail, terms, descr, factor_lists, coq_budget)
     maxiter = case["maxiter"]
     grads = [l for l in M.log if l[0] == "grad"]
     it, hlen = opt.iteration, len(opt._history)
+    tol = opt.conv_tol                       # the tolerance the optimiser actually holds
     single = len(case["atoms"]) == 1
     if single:
         ctx.hist("runs", "single-atom")
@@ -1024,6 +1106,8 @@ def check_run(ctx, env, case, res, fail, terms, descr, factor_lists, coq_budget)
         fail(f"run|convergence-bookkeeping-raises:{type(e).__name__}", f"{label}: optimiser.converged raised {e}", rep)
         return
     ctx.hist("runs", f"{cls}:{'converged' if conv else 'limit'}")
+    if conv and case["constraints"] and int(opt._history.final.n_constraints) > 0:
+        ctx.hist("runs", f"{cls}:converged-constrained")
     if case.get("min_iterations") and it < case["min_iterations"]:
         ctx.hist("runs", "long-run-too-short")
     # --- a run that is not converged stopped because of the limit
@@ -1040,7 +1124,7 @@ def check_run(ctx, env, case, res, fail, terms, descr, factor_lists, coq_budget)
     if grads:
         _, xl, el, gl = grads[-1]
         bad = []
-        if not np.array_equal(x, xl):
+        if not np.array_equal(x, xl, equal_nan=True):
             bad.append(f"coordinates differ from the last evaluated point by {np.abs(x - xl).max():.3e}")
         if mol.energy is None or float(mol.energy) != el:
             bad.append(f"energy {mol.energy!r} != last evaluated {el!r}")
@@ -1071,6 +1155,9 @@ def check_run(ctx, env, case, res, fail, terms, descr, factor_lists, coq_budget)
         rms_s, max_s = math.sqrt(float(np.mean(dx * dx))), float(np.max(np.abs(dx)))
     else:
         d_e = rms_s = max_s = math.inf
+    if max_g is None:
+        ctx.hist("runs", "linprog-failed")
+        max_g = 0.0                          # no statement about the max measure for this run
     ind = [d_e, rms_g, max_g, rms_s, max_s]
     # --- conv_params of the history = the measures of the last two evaluated points
     try:
@@ -1100,23 +1187,59 @@ def check_run(ctx, env, case, res, fail, terms, descr, factor_lists, coq_budget)
                 fail(f"converged|{a}-above-threshold:{cls}",
                      f"{label}: reported converged at iteration {it} but independent {a} = {v:.6e} > "
                      f"{k:g} x {c:.6e}", dict(rep, measures=dict(zip(ATTRS, ind))))
+        n_cons_impl = int(opt._history.final.n_constraints)
         for i, j, r in cons:
             dist = float(np.linalg.norm(x[i] - x[j]))
             if not abs(dist - r) < CONSTRAINT_TOL * (1 + 1e-9):
-                fail(f"converged|constraint-unmet:{cls}",
-                     f"{label}: reported converged with distance({i},{j}) = {dist:.6f}, constraint {r} (tolerance {CONSTRAINT_TOL})", rep)
+                if n_cons_impl == 0:
+                    # the optimiser's coordinates carry no constraint at all: species.constraints.distance is ignored
+                    fail(f"converged|species-constraint-ignored:{cls}",
+                         f"{label}: {cls} builds coordinates without the species' distance constraints (n_constraints = 0) and "
+                         f"reports converged with distance({i},{j}) = {dist:.6f}, constraint {r}", rep)
+                else:
+                    fail(f"converged|constraint-unmet:{cls}",
+                         f"{label}: reported converged with distance({i},{j}) = {dist:.6f}, constraint {r} (tolerance {CONSTRAINT_TOL})", rep)
         if cls == "prfo":
             H = pot.hess(x)
             P = rigid_projector(x)
             ev = np.linalg.eigvalsh(P @ H @ P)
             nneg = int(np.sum(ev < -1e-4))
+            ctx.hist("runs", f"prfo:converged-with-{nneg}-negative-eigenvalues")
             if nneg != 1:
-                fail("converged|prfo-not-first-order-saddle",
-                     f"{label}: converged saddle search has {nneg} negative Hessian eigenvalues (lowest {ev[:3]})", rep)
+                when = "at-iteration-0" if it == 0 else "after-steps"
+                fail(f"converged|prfo-not-first-order-saddle:{when}",
+                     f"{label}: converged saddle search ({'no step taken: converged has no curvature test' if it == 0 else f'{it} steps'}) "
+                     f"has {nneg} negative Hessian eigenvalues (lowest {ev[:3]})", rep)
+    # --- writing the trajectory as xyz (also when that fails) leaves the species as it was
+    if res.get("opt") is not None and opt._species is not None and it >= 1 and case.get("via", "run") != "optimise":
+        snap = (np.array(mol.coordinates, dtype=float).copy(), None if mol.energy is None else float(mol.energy),
+                None if mol.gradient is None else np.array(mol.gradient).copy())
+
+        def species_changed():
+            out = []
+            if not np.array_equal(np.array(mol.coordinates, dtype=float), snap[0], equal_nan=True):
+                out.append(f"coordinates moved by {np.abs(np.array(mol.coordinates, dtype=float) - snap[0]).max():.3e} A")
+            if (None if mol.energy is None else float(mol.energy)) != snap[1]:
+                out.append(f"energy {mol.energy!r} (was {snap[1]!r})")
+            if (mol.gradient is None) != (snap[2] is None) or (snap[2] is not None and not np.array_equal(np.array(mol.gradient), snap[2])):
+                out.append("gradient " + ("lost" if mol.gradient is None else "changed"))
+            return out
+        for target, faulty in ((f"{case['name']}_c10print", False), (os.path.join("c10_no_such_dir", "trj"), True)):
+            try:
+                opt.print_geometries(target)
+                raised = None
+            except Exception as e:  # noqa
+                raised = type(e).__name__
+            ch = species_changed()
+            if ch:
+                fail("species|modified-by-print-geometries" + (":after-io-fault" if faulty else ""),
+                     f"{label}: optimiser.print_geometries({target!r}) {'raised ' + str(raised) if raised else 'returned'} and left the "
+                     f"species changed: " + "; ".join(ch), dict(rep, print_target=target))
+                break
     # --- reload from the saved trajectory reproduces the final state
     trj = res["trj"]
     if os.path.exists(trj):
-        for rc_name in {cls, "crfo"}:       # executors.py:357 always reloads with CRFOptimiser.from_file
+        for rc_name in sorted({cls, "crfo"}):       # executors.py:357 always reloads with CRFOptimiser.from_file
             try:
                 o2 = env.classes[rc_name].from_file(trj)
                 f1, f2 = opt._history.final, o2._history.final
@@ -1162,7 +1285,7 @@ def check_run(ctx, env, case, res, fail, terms, descr, factor_lists, coq_budget)
         if len(grads) >= 2:
             pk = f"(Some (mkPoint (Some {qc(grads[-2][2])}) {qc_list(grads[-2][1].flatten().tolist())} None))"
         parts.append(f"check_conv_params {pl} {pk} {params_lit(impl_cp)}")
-    if cons and hasattr(fin, "B"):
+    if cons and nc > 0 and getattr(fin, "B", None) is not None:
         deltas = [float(np.linalg.norm(x[i] - x[j])) - r for i, j, r in cons]
         if all(abs(abs(dl) - CONSTRAINT_TOL) > 1e-9 for dl in deltas):
             parts.append(f"check_nsat {qc_list(deltas)} {coq_nat(nc)} {coq_nat(ns)}")
@@ -1219,6 +1342,14 @@ def stream_runs(ctx, env, factor_lists, full, fail, only=None):
     finally:
         os.chdir(cwd)
     ctx.log(f"real optimiser runs: {len(cases)} in {time.time() - t0:.1f}s")
+    if only is None:
+        h = ctx.cov["streams"].get("runs", {}).get("histogram", {})
+        low = {k: (h.get(k, 0), n) for k, n in FLOORS.items() if h.get(k, 0) < n}
+        if low:
+            fail("runs|coverage-collapsed",
+                 "too few converging optimiser runs to exercise the property (count, floor): " + json.dumps(low) +
+                 "; raised: " + json.dumps({k: v for k, v in h.items() if k.startswith("raised:") or k.endswith(":raised")}),
+                 {"kind": "coverage", "low": low})
     # the maxiter guard of Optimiser.__init__
     for mval in (-3, 0, 1, 2, 50):
         try:
@@ -1366,7 +1497,7 @@ def run(ctx):
     def fail(key, what, rep):
         nfail[0] += 1
         seen_keys[key] = seen_keys.get(key, 0) + 1
-        if seen_keys[key] <= 2 and sum(1 for k in seen_keys) <= 8:
+        if seen_keys[key] <= 2 and sum(1 for k in seen_keys) <= 16:
             ctx.finding(key, what, rep)
     t1, d1 = stream_params(ctx, env, factor_lists, full, fail)
     ctx.log(f"params stream: {len(t1)} terms")
